@@ -251,22 +251,21 @@ func readConfig(args []string) *CliConfig {
 			log.Fatal("Config read failed", zap.Error(err))
 		}
 	}
-	pools := v.Get("pools").([]any)
-	for i, pool := range pools {
-		poolMap := pool.(map[string]any)
-		if _, ok := poolMap["discard_overflow"]; !ok {
-			poolMap["discard_overflow"] = true
+	// A missing `pools` section, or a pool that is not a mapping, is left as it is:
+	// decoding reports it as a config error below.
+	if pools, ok := v.Get("pools").([]any); ok {
+		for i, pool := range pools {
+			poolMap, ok := pool.(map[string]any)
+			if !ok {
+				continue
+			}
+			// A key without value (`discard_overflow:`, null) is a key that is not set: the default applies to it as well.
+			if val, ok := poolMap["discard_overflow"]; !ok || val == nil {
+				poolMap["discard_overflow"] = true
+			}
+			pools[i] = poolMap
 		}
-		pools[i] = poolMap
-	}
-	v.Set("pools", pools)
-
-	// A key without value (`discard_overflow:`, null) is a key that is not set: the default applies to it as well.
-	for _, pool := range pools {
-		poolMap := pool.(map[string]any)
-		if val, ok := poolMap["discard_overflow"]; ok && val == nil {
-			poolMap["discard_overflow"] = true
-		}
+		v.Set("pools", pools)
 	}
 
 	conf := DefaultConfig()
